@@ -22,9 +22,34 @@ macro_rules! per_parser {
                 out.push_str(&r);
                 flush_out(out);
             }
+            per_parser!(@seq $algo, g, $Parser, $name, out);
             writeln!(out, "ENDPARSER").unwrap();
         }
     };
+    // ONE parser instance for the whole input list; before each input a corrupted copy of it (syntax error after
+    // the last token was shifted) is parsed with the same instance. Lines RESULT LRS i ... must equal RESULT LR i ...
+    (@seq LR, $g:ident, $Parser:ident, $name:expr, $out:ident) => {
+        let inputs = read_inputs($name);
+        let bads: Vec<String> = inputs.iter().map(|s| format!("{} \u{1}", s)).collect();
+        let r = catch_unwind(AssertUnwindSafe(|| {
+            let mut s = String::new();
+            let parser = $g::$Parser::new();
+            for (i, input) in inputs.iter().enumerate() {
+                let _ = parser.parse(bads[i].as_str());
+                match parser.parse(input.as_str()) {
+                    Ok(ast) => s.push_str(&format!("RESULT LRS {} AST 1 {}\n", i, hex(format!("{:?}", ast).as_bytes()))),
+                    Err(_) => s.push_str(&format!("RESULT LRS {} ERR\n", i)),
+                }
+            }
+            s
+        }));
+        match r {
+            Ok(s) => $out.push_str(&s),
+            Err(e) => $out.push_str(&format!("RESULT LRS 0 PANIC {}\n", panic_msg(e))),
+        }
+        flush_out($out);
+    };
+    (@seq GLR, $g:ident, $Parser:ident, $name:expr, $out:ident) => {};
     (@parse LR, $g:ident, $Parser:ident, $input:ident, $i:ident) => {
         match $g::$Parser::new().parse($input.as_str()) {
             Ok(ast) => format!("RESULT LR {} AST 1 {}\n", $i, hex(format!("{:?}", ast).as_bytes())),
